@@ -91,6 +91,12 @@ Print Assumptions c01_cell_text.
 Theorem c01_count_text : forall n t, fmt_int F_d n = Some t -> read_number t = Some (mkp (n <? 0)%Z (Z.abs n) 0 0).
 Proof. exact (fmt_int_reads F_d). Qed.
 
+(* a printed cell contains no blank, tab or line break: a row splits at the writer's blanks into exactly its four cells *)
+Theorem c01_cell_no_blank : forall neg m e, (0 <= m)%Z -> Forall (fun c => cell_char c = true) (fixed 8 neg m e).
+Proof. exact (fixed_chars 8). Qed.
+Theorem c01_cell_chars_not_blank : forall c, cell_char c = true -> c <> 32%Z /\ c <> 10%Z /\ c <> 9%Z.
+Proof. exact cell_char_not_blank. Qed.
+
 (* non-vacuity: a concrete two-potential table *)
 Example c01_example :
   let pots := [{| p_a := 0; p_b := 1; p_hasd := true |}; {| p_a := 1; p_b := 1; p_hasd := false |}] in
